@@ -176,6 +176,17 @@ func (e *Env) StyleKnown(el string) []gen.StyleDecl {
 
 // AttrValue draws a decoded value for (el, key).
 func (e *Env) AttrValue(r *rand.Rand, el, key string) string {
+	if r.Intn(60) == 0 { // a value longer than any small buffer
+		v := e.attrValue(r, el, key)
+		if v == "" {
+			v = "x"
+		}
+		return strings.Repeat(v, 1100/len(v)+1+r.Intn(3))
+	}
+	return e.attrValue(r, el, key)
+}
+
+func (e *Env) attrValue(r *rand.Rand, el, key string) string {
 	switch key {
 	case "style":
 		if r.Intn(4) > 0 {
@@ -238,6 +249,9 @@ func (e *Env) Attrs(r *rand.Rand, el string) [][2]string {
 	if n > 0 && r.Intn(3) == 0 {
 		n = 1
 	}
+	if r.Intn(40) == 0 { // a long attribute list: position- and count-dependent code paths
+		n = 10 + r.Intn(30)
+	}
 	var out [][2]string
 	ra := e.ruleAttrs(el)
 	for i := 0; i < n; i++ {
@@ -262,12 +276,20 @@ func (e *Env) DocOpts(noise int, extras bool) gen.DocOpts {
 	return gen.DocOpts{Elements: e.ElementCandidates(), Attrs: e.Attrs, Text: gen.HostileText, MaxDepth: 4, MaxKids: 4, Noise: noise, Extras: extras}
 }
 
+// deepDocOpts: narrow and deep (nesting-depth dependent code paths).
+func (e *Env) deepDocOpts(noise int) gen.DocOpts {
+	return gen.DocOpts{Elements: e.ElementCandidates(), Attrs: e.Attrs, Text: gen.HostileText, MaxDepth: 14, MaxKids: 2, Noise: noise, Extras: true}
+}
+
 // HostileInput draws one input: a noisy generated document (70%), a corpus
 // mutant (25%) or a verbatim corpus entry (5%).
 func (e *Env) HostileInput(r *rand.Rand) string {
 	switch k := r.Intn(20); {
 	case k < 14:
 		o := e.DocOpts(1+r.Intn(3), true)
+		if r.Intn(25) == 0 {
+			o = e.deepDocOpts(1 + r.Intn(2))
+		}
 		return gen.Serialize(r, gen.RandomTree(r, o, 0), o.Noise)
 	case k < 19:
 		c := gen.Corpus()
